@@ -15,7 +15,8 @@ AREAS = ["agcv3", "kmer", "segment", "pipeline", "groupstore", "tuple", "lz", "c
 NO_MODEL_RUN = True
 THEOREMS = ["create_total", "create_outcome", "store_run_total", "store_run_total_pieces", "pieces_count",
             "store_run_total_inputs", "catalogue_is_stored", "catalogue_descriptors_in_range", "grp_bound_from_catalogue",
-            "model_build_succeeds", "grand_roundtrip_total", "text_samples_names_distinct", "text_roundtrip_total"]
+            "model_build_succeeds", "grand_roundtrip_total", "text_samples_names_distinct", "text_roundtrip_total",
+            "in_group_id_bound", "catalogue_in_dom_from_inputs", "grand_roundtrip_inputs"]
 RULE = ("proof-only sub-check of C01: bin/check rebuilds props/C01T.vo from the regenerated constants, re-runs coqc on "
         "props/C01T.v and requires 'Closed under the global context' under every pinned theorem; the non-vacuity Example "
         "grand_roundtrip_total_nonvacuous discharges every hypothesis of grand_roundtrip_total (incl. the per-group piece "
@@ -31,12 +32,16 @@ ASSUMPTIONS = ["zstd: zd (zc l x) = Some x and zc l x <> [] for all levels and i
                "emitted pieces; no group receives 2^32-2 pieces (implied by fewer than 2^32-2 pieces in all, implied by "
                "2*(bases+contigs)+2 < 2^32: pieces_count / store_run_total_inputs). NO range hypothesis on group ids "
                "(grp_bound_from_catalogue)",
-               "residual size conditions, stated on whatever the writer returns (not assuming it returns): "
-               "catalogue_in_dom of the catalogue create builds (C03: name bytes 1..127, group ids < 2^32-1, in-group ids "
-               "< 2^31-1, the five detail streams of each 50-sample batch and their zstd images < 2^32 bytes) - needed "
-               "for Collection.store_all not to trap, depends on zstd output sizes; every part metadata < 2^64 (raw pack "
-               "lengths = sums of LZ output lengths, name stream lengths, the caller's file_type_info value) and file "
-               "length <= 2^63-1 (sum of zstd output sizes)",
+               "residual size conditions, stated on whatever the writer returns (implications from '= Ok x', never an "
+               "assumption that it returns). grand_roundtrip_total: catalogue_in_dom of the catalogue create builds (C03's "
+               "domain; outside it Collection.store_all itself can trap, so it cannot sit behind model_build = Ok). "
+               "catalogue_in_dom_from_inputs / grand_roundtrip_inputs reduce it to input counts (< 2^32 samples, contigs "
+               "per sample, 2*(bases+1) per contig), name bytes 1..127, group ids of emitted pieces < 2^32-1, fewer than "
+               "2^31-1 pieces per group (in_group_id_bound), and ONE residual: batch_small (the five detail streams of "
+               "each 50-sample batch and their zstd images < 2^32 bytes - depends on zstd output sizes). Both keep: every "
+               "part metadata < 2^64 (raw pack lengths = sums of LZ output lengths for which C09 has no length bound, "
+               "name stream lengths, the caller's file_type_info value) and file length <= 2^63-1 (sum of zstd output "
+               "sizes); lists are unbounded in the model, so these cannot be derived",
                "text_roundtrip_total: text_samples files = Ok arch (the FASTA reader accepts the input - a statement about "
                "the parser, not the writer), sample names non-empty, 2*|contig| + min_match_len < 2^31; shape, alphabet "
                "and distinct contig names are PROVED from the parser (text_samples_names_distinct)"]
